@@ -239,7 +239,7 @@ theorem deployTokenManagerRaw_spec (C : Crypto) (cx : ICtx) (tokenId : Bytes) (t
     (opRaw : Bytes) (t t' : Tx) (addr : Bytes)
     (h : deployTokenManagerRaw C cx tokenId ty token opRaw t = some (addr, t')) :
     t.w.its.tmAddress tokenId = [] ∧ addr ≠ [] ∧
-    t'.w.its = { t.w.its with tmAddress := upd t.w.its.tmAddress tokenId addr } ∧
+    t'.w.its = { t.w.its with tmAddress := upd t.w.its.tmAddress tokenId addr } ∧ t'.w.gw = t.w.gw ∧
     t.w.kind addr = none ∧ t'.w.kind addr = some .tokenManager ∧
     ∃ operator tmst evs, (opRaw = [] ∧ operator = none ∨ opRaw.length = 32 ∧ operator = some opRaw) ∧
       TokenManager.init cx.self ty tokenId operator token = .ok (tmst, evs) ∧ t'.w.tms addr = tmst := by
@@ -262,7 +262,7 @@ theorem deployTokenManagerRaw_spec (C : Crypto) (cx : ICtx) (tokenId : Bytes) (t
             simp only [hi, run_setW, run_bind, run_getI, run_setI, run_emit, run_pure, modify, modifyGet,
               MonadStateOf.modifyGet, StateT.modifyGet, Option.some.injEq, Prod.mk.injEq] at h
             obtain ⟨rfl, rfl⟩ := h
-            refine ⟨hempty, by simpa using ha, rfl,
+            refine ⟨hempty, by simpa using ha, rfl, rfl,
               by simpa using hk, by simp [upd], none, tmst, evs, Or.inl ⟨by simpa using ho, rfl⟩, hi, by simp [upd]⟩
         · simp [hk] at h
     · simp only [ho, Bool.false_eq_true, if_false] at h
@@ -280,7 +280,7 @@ theorem deployTokenManagerRaw_spec (C : Crypto) (cx : ICtx) (tokenId : Bytes) (t
               simp only [hi, run_setW, run_bind, run_getI, run_setI, run_emit, run_pure, modify, modifyGet,
                 MonadStateOf.modifyGet, StateT.modifyGet, Option.some.injEq, Prod.mk.injEq] at h
               obtain ⟨rfl, rfl⟩ := h
-              refine ⟨hempty, by simpa using ha, rfl,
+              refine ⟨hempty, by simpa using ha, rfl, rfl,
                 by simpa using hk, by simp [upd], some opRaw, tmst, evs, Or.inr ⟨hl, rfl⟩, hi, by simp [upd]⟩
           · simp [hk] at h
       · simp [hl] at h
